@@ -826,3 +826,25 @@ Proof. reflexivity. Qed.
 
 Example ex_encode : encode [[97]; [13; 10]] = [49; 13; 10; 97; 13; 10; 50; 13; 10; 13; 10; 13; 10; 48; 13; 10; 13; 10].
 Proof. reflexivity. Qed.
+
+(* the stream stays open: after any fragmentation of the coding of non-empty
+   chunks the client is back at "expect a chunk-size line" - it has seen no
+   terminating chunk, it is not inside a chunk, nothing is held back *)
+Theorem stream_stays_open chunks segs :
+  Forall (fun d => d <> []) chunks ->
+  concat segs = encode_open chunks ->
+  client_feed segs = idle chunks.
+Proof.
+  intros Hc Hs. rewrite client_feed_bytewise, Hs. change init_state with (idle []).
+  rewrite bfeed_open by exact Hc. reflexivity.
+Qed.
+
+(* whereas the terminating chunk moves the client to the trailer state *)
+Theorem stream_terminated chunks segs :
+  Forall (fun d => d <> []) chunks ->
+  concat segs = encode chunks ->
+  pt (client_feed segs) = PTrailer.
+Proof.
+  intros Hc Hs. rewrite client_feed_bytewise, Hs. unfold encode. rewrite bfeed_app.
+  change init_state with (idle []). rewrite bfeed_open by exact Hc. rewrite bfeed_final. reflexivity.
+Qed.
